@@ -33,6 +33,8 @@ def build_harness(name, scratch, hdf5=False):
 
 def run_replay(spec, scratch):
     """spec: {'harness': name, 'args': [...], 'hdf5': bool}; returns dict"""
+    if spec.get('driver') == 'main':
+        return run_main_scenarios(spec, scratch)
     r = build_harness(spec['harness'], scratch, spec.get('hdf5', False))
     if isinstance(r, tuple):
         return {'built': False, 'error': r[1], 'confirmed': False}
@@ -69,3 +71,104 @@ def write_evidence(pid, tier, seed, level, coverage, assumptions, wall, violatio
     json.dump(ev, open(tmp, 'w'), indent=1, default=str)
     os.replace(tmp, path)
     return path
+
+
+# ---------------------------------------------------------------------------------------------------------------------------
+# main-level replay: build the real binary from the current tree and run whole-program scenarios against checkers that need
+# no model (record counts, time axis, CSR rows, cadence independence, interrupt handling)
+def run_main_scenarios(spec, scratch):
+    """spec: {'driver': 'main', 'scenarios': [...]}; returns the same dict shape as run_replay"""
+    import signal as _signal
+    b = os.path.join(scratch, 'inovesa_build')
+    exe = os.path.join(b, 'inovesa')
+    if not os.path.exists(exe):
+        p = subprocess.run(['cmake', '-S', REPO, '-B', b, '-G', 'Ninja', '-DCMAKE_BUILD_TYPE=Release'], capture_output=True, text=True)
+        if p.returncode == 0:
+            p = subprocess.run(['cmake', '--build', b, '--target', 'inovesa', '-j16'], capture_output=True, text=True)
+        if p.returncode != 0 or not os.path.exists(exe):
+            return {'built': False, 'error': (p.stdout + p.stderr)[-2000:], 'confirmed': False}
+    chk = build_harness('h5_run_check', scratch, hdf5=True)
+    if isinstance(chk, tuple):
+        return {'built': False, 'error': chk[1], 'confirmed': False}
+    env = dict(os.environ, XDG_DATA_HOME=os.path.join(scratch, 'xdg'))
+    work = os.path.join(scratch, 'main_runs')
+    os.makedirs(work, exist_ok=True)
+    outs, confirmed = [], False
+    base = ['--run_anyway', '1', '-s', '32', '-N', '10']
+
+    def run(args, name, interrupt_after=None):
+        out = os.path.join(work, name + '.h5')
+        for ext in ('', '.cfg'):
+            try:
+                os.remove(out + ext)
+            except OSError:
+                pass
+        given = {a for a in args if a.startswith('-')}
+        b_ = []
+        for i in range(0, len(base), 2):          # a scenario's own value for an option replaces the default one
+            if base[i] not in given:
+                b_ += base[i:i + 2]
+        cmd = [exe] + b_ + args + ['-o', out]
+        if interrupt_after is None:
+            p = subprocess.run(cmd, capture_output=True, text=True, timeout=600, env=env, cwd=work)
+            return out, p.returncode, p.stdout + p.stderr
+        pr = subprocess.Popen(cmd, stdout=subprocess.PIPE, stderr=subprocess.STDOUT, text=True, env=env, cwd=work)
+        # never before the handler is installed (the statement is about interrupts after start-up): wait until the process
+        # catches SIGINT (SigCgt bit 2 in /proc/<pid>/status), then the requested delay ('installed' = none)
+        t_end = time.time() + 30
+        while time.time() < t_end and pr.poll() is None:
+            try:
+                m_ = [l for l in open(f'/proc/{pr.pid}/status') if l.startswith('SigCgt:')]
+                if m_ and int(m_[0].split()[1], 16) & 0x2:
+                    break
+            except OSError:
+                break
+            time.sleep(0.002)
+        if interrupt_after != 'installed':
+            time.sleep(interrupt_after)
+        pr.send_signal(_signal.SIGINT)
+        try:
+            so, _ = pr.communicate(timeout=300)
+        except subprocess.TimeoutExpired:
+            pr.kill(); so = 'TIMEOUT after SIGINT'
+        return out, pr.returncode, so
+
+    def check(out, steps, outstep, rot, rf=0):
+        p = subprocess.run([chk, out, str(steps), str(outstep), str(rot), str(rf)], capture_output=True, text=True, timeout=120)
+        return p.returncode, p.stdout[-1500:]
+    for sc in spec.get('scenarios', ['records']):
+        try:
+            if sc == 'records':
+                for nm, extra, T, n in (('one', ['-I', '1e-3'], 0.33, 3), ('two', ['-I', '5e-4', '5e-4', '--RenormalizeCharge', '2'], 0.7, 2)):
+                    out, rc, so = run(['-T', str(T), '-n', str(n)] + extra, 'rec_' + nm)
+                    crc, cso = check(out, 10, n, T) if rc == 0 else (1, 'run failed')
+                    outs.append({'args': [sc, nm], 'exit': 1 if (rc != 0 or crc == 1) else 0, 'stdout': f'inovesa exit {rc}\n' + cso})
+            elif sc == 'rfkicks':
+                out, rc, so = run(['-T', '0.7', '-n', '3', '--RFPhaseSpread', '0.1', '--RFPhaseModAmplitude', '0.5', '--RFPhaseModFrequency', '6e4'], 'rf')
+                crc, cso = check(out, 10, 3, 0.7, 1) if rc == 0 else (1, 'run failed')
+                outs.append({'args': [sc], 'exit': 1 if (rc != 0 or crc == 1) else 0, 'stdout': f'inovesa exit {rc}\n' + cso})
+            elif sc == 'cadence':
+                cmpx = build_harness('h5_final_compare', scratch, hdf5=True)
+                res = []
+                for extra_name, extra in (('plain', []), ('renorm', ['--RenormalizeCharge', '3']), ('track', ['--RenormalizeCharge', '2'])):
+                    a, rca, _ = run(['-T', '1.2', '-n', '3'] + extra, f'cad_{extra_name}_a')
+                    bb, rcb, _ = run(['-T', '1.2', '-n', '4', '--SavePhaseSpace', '1'] + extra, f'cad_{extra_name}_b')
+                    p = subprocess.run([cmpx, a, bb], capture_output=True, text=True, timeout=120) if not isinstance(cmpx, tuple) else None
+                    res.append((extra_name, rca, rcb, p.returncode if p else 3, (p.stdout if p else '')[-400:]))
+                failed = any(r[1] != 0 or r[2] != 0 or r[3] == 1 for r in res)
+                outs.append({'args': [sc], 'exit': 1 if failed else 0, 'stdout': '\n'.join(f'{r[0]}: inovesa exits {r[1]}/{r[2]}; {r[4].strip()}' for r in res)})
+            elif sc == 'interrupt':
+                worst = 0
+                text = []
+                for delay in ('installed', 0.3, 0.8):
+                    out, rc, so = run(['-s', '64', '-T', '400', '-N', '1000', '-n', '50'], f'int_{delay if isinstance(delay, str) else int(delay * 10)}', interrupt_after=delay)
+                    said = 'Aborted.' in so
+                    crc, cso = check(out, 1000, 50, 400) if os.path.exists(out) else (1, 'no results file')
+                    ok = rc == 0 and said and crc == 0
+                    worst |= 0 if ok else 1
+                    text.append(f'SIGINT after {delay}{"" if isinstance(delay, str) else "s"}: exit {rc}, reported aborted: {said}, file: {cso.strip()[-200:]}')
+                outs.append({'args': [sc], 'exit': worst, 'stdout': '\n'.join(text)})
+        except Exception as e:
+            outs.append({'args': [sc], 'exit': 'error', 'stdout': f'{type(e).__name__}: {e}'})
+    confirmed = any(o_['exit'] == 1 for o_ in outs)
+    return {'built': True, 'runs': outs, 'confirmed': confirmed}
